@@ -1,0 +1,172 @@
+//! Verification hooks. Compiled only with `--cfg ldap3_verif`; never part of a normal build.
+//!
+//! Everything here is additive: an in-memory transport seam for the connection driver,
+//! direct entry points to the crate-private codec, read-only gauges for the driver's
+//! routing maps, and a mutex wrapper which lets an external scheduler observe every
+//! acquisition of the message ID table.
+
+use std::cell::RefCell;
+use std::collections::HashMap;
+use std::fmt::Debug;
+use std::io;
+
+use crate::controls::{Control, RawControl};
+use crate::exop::Exop;
+use crate::protocol::LdapCodec;
+use crate::result::{LdapResult, LdapResultExt};
+
+use bytes::BytesMut;
+use lber::structure::StructureTag;
+use lber::structures::Tag;
+use tokio::io::{AsyncRead, AsyncWrite};
+use tokio_util::codec::{Decoder, Encoder};
+
+/// Transport object accepted by `LdapConnAsync::verif_pair()`.
+pub trait VerifIo: AsyncRead + AsyncWrite + Send + Unpin + Debug {}
+impl<T: AsyncRead + AsyncWrite + Send + Unpin + Debug> VerifIo for T {}
+
+/// Boxed transport.
+pub type BoxIo = Box<dyn VerifIo>;
+
+/// Run the crate's frame decoder once on `buf`.
+pub fn decode(buf: &mut BytesMut) -> io::Result<Option<(i32, StructureTag, Vec<Control>)>> {
+    let mut codec = LdapCodec {};
+    match codec.decode(buf)? {
+        None => Ok(None),
+        Some((id, (Tag::StructureTag(t), ctrls))) => Ok(Some((id, t, ctrls))),
+        Some(_) => unreachable!("decoder returns structure tags only"),
+    }
+}
+
+/// Run the crate's frame encoder.
+pub fn encode(
+    id: i32,
+    op: Tag,
+    controls: Option<Vec<RawControl>>,
+    into: &mut BytesMut,
+) -> io::Result<()> {
+    let mut codec = LdapCodec {};
+    codec.encode((id, op, controls), into)
+}
+
+/// Convert a protocolOp carrying an LDAPResult the way `op_call` does.
+pub fn result_from(t: StructureTag) -> (LdapResult, Exop, Option<Vec<u8>>) {
+    let ext = LdapResultExt::from(Tag::StructureTag(t));
+    (ext.0, ext.1, (ext.2).0)
+}
+
+thread_local! {
+    static GAUGES: RefCell<Option<(Vec<i32>, Vec<i32>)>> = const { RefCell::new(None) };
+}
+
+/// Called by the driver at the top of every loop iteration.
+pub(crate) fn publish<A, B>(resultmap: &HashMap<i32, A>, searchmap: &HashMap<i32, B>) {
+    let mut r: Vec<i32> = resultmap.keys().copied().collect();
+    let mut s: Vec<i32> = searchmap.keys().copied().collect();
+    r.sort_unstable();
+    s.sort_unstable();
+    GAUGES.with(|g| *g.borrow_mut() = Some((r, s)));
+}
+
+/// Sorted keys of (resultmap, searchmap) as last seen by a driver polled on this thread.
+pub fn gauges() -> Option<(Vec<i32>, Vec<i32>)> {
+    GAUGES.with(|g| g.borrow().clone())
+}
+
+/// Forget the published gauges.
+pub fn reset_gauges() {
+    GAUGES.with(|g| *g.borrow_mut() = None);
+}
+
+pub mod sync {
+    //! `Mutex` with an optional, externally supplied shadow lock.
+
+    use std::cell::RefCell;
+    use std::ops::{Deref, DerefMut};
+    use std::sync::{Arc, LockResult, PoisonError};
+
+    /// Lock object owned by the harness. `lock()` must block (under the harness's own
+    /// scheduler) until the shadow is free; `unlock()` releases it.
+    pub trait Shadow: Send + Sync {
+        fn lock(&self);
+        fn unlock(&self);
+    }
+
+    type Factory = Box<dyn Fn() -> Arc<dyn Shadow>>;
+
+    thread_local! {
+        static FACTORY: RefCell<Option<Factory>> = const { RefCell::new(None) };
+    }
+
+    /// Install (or remove) the shadow factory consulted by `Mutex::new` on this thread.
+    pub fn set_shadow_factory(f: Option<Factory>) {
+        FACTORY.with(|c| *c.borrow_mut() = f);
+    }
+
+    #[derive(Debug)]
+    pub struct Mutex<T> {
+        inner: std::sync::Mutex<T>,
+        shadow: Option<ShadowBox>,
+    }
+
+    struct ShadowBox(Arc<dyn Shadow>);
+
+    impl std::fmt::Debug for ShadowBox {
+        fn fmt(&self, f: &mut std::fmt::Formatter) -> std::fmt::Result {
+            f.write_str("Shadow")
+        }
+    }
+
+    pub struct Guard<'a, T> {
+        inner: Option<std::sync::MutexGuard<'a, T>>,
+        shadow: Option<&'a ShadowBox>,
+    }
+
+    impl<T> Mutex<T> {
+        pub fn new(t: T) -> Mutex<T> {
+            let shadow = FACTORY.with(|c| c.borrow().as_ref().map(|f| ShadowBox(f())));
+            Mutex {
+                inner: std::sync::Mutex::new(t),
+                shadow,
+            }
+        }
+
+        pub fn lock(&self) -> LockResult<Guard<'_, T>> {
+            if let Some(ref s) = self.shadow {
+                s.0.lock();
+            }
+            match self.inner.lock() {
+                Ok(g) => Ok(Guard {
+                    inner: Some(g),
+                    shadow: self.shadow.as_ref(),
+                }),
+                Err(p) => Err(PoisonError::new(Guard {
+                    inner: Some(p.into_inner()),
+                    shadow: self.shadow.as_ref(),
+                })),
+            }
+        }
+    }
+
+    impl<T> Drop for Guard<'_, T> {
+        fn drop(&mut self) {
+            self.inner.take();
+            if let Some(s) = self.shadow {
+                s.0.unlock();
+            }
+        }
+    }
+
+    impl<T> Deref for Guard<'_, T> {
+        type Target = T;
+        fn deref(&self) -> &T {
+            self.inner.as_ref().expect("guard")
+        }
+    }
+
+    impl<T> DerefMut for Guard<'_, T> {
+        fn deref_mut(&mut self) -> &mut T {
+            self.inner.as_mut().expect("guard")
+        }
+    }
+}
